@@ -127,11 +127,23 @@ class BinaryOperator(Node):
     def __new__(cls, value, lhs, rhs):
         return super().__new__(cls, value, precedence[value], (lhs, rhs))
 
+    def lhs_needs_parens(self, lhs):
+        """Whether *lhs* must be parenthesized as left operand of this operator."""
+        if self.value == "**":  # right-associative
+            return self.precedence >= lhs.precedence
+        return self.precedence > lhs.precedence
+
+    def rhs_needs_parens(self, rhs):
+        """Whether *rhs* must be parenthesized as right operand of this operator."""
+        if self.value == "**":  # right-associative
+            return self.precedence > rhs.precedence
+        return self.precedence >= rhs.precedence
+
     def __str__(self):
         lhs, rhs = self.children
-        if self.precedence > lhs.precedence:
+        if self.lhs_needs_parens(lhs):
             lhs = f"({lhs})"
-        if self.precedence >= rhs.precedence:
+        if self.rhs_needs_parens(rhs):
             rhs = f"({rhs})"
         return f"{lhs} {self.value} {rhs}"
 
@@ -223,14 +235,14 @@ class _LimitStrLengthVisitor:
         lhs = self.visit_node(node.lhs)
         self.max_len += 3  # return reserved characters for the second operand
         # Adjust for parenthesis due to operator precedence
-        if node.precedence > lhs.precedence:
+        if node.lhs_needs_parens(lhs):
             self.max_len -= 2
-        if node.precedence >= node.rhs.precedence:
+        if node.rhs_needs_parens(node.rhs):
             self.max_len -= 2
 
         rhs = self.visit_node(node.rhs)
         if self.max_len < 0:
-            if node.precedence >= node.rhs.precedence:
+            if node.rhs_needs_parens(node.rhs):
                 self.max_len += 2
             self.max_len += len(str(rhs)) - 3
             rhs = EllipsisLeaf()
